@@ -22,6 +22,7 @@ PRIMS = frozenset({"_handle_eq_event", "take_injected_events", "cache_last_poll_
                    "get_cached_poll_response", "register_region", "inject_event", "inject_message", "clear"})
 
 REGION_ADDERS = {"BaseClientSession.register_region"}
+REGION_REMOVERS = {"HippoClientSession.unregister_region"}
 
 
 EQM = "EventQueueManager"
@@ -356,6 +357,35 @@ def r1(ctx, m: RespModel):
         ctx.ob("C17.R1", f"MITMProxyEventManager._handle_eq_event: {norm(r)} only on the addons' verdict", ok, eq.w(r),
                "an event is reported swallowed although no addon asked for it: it never reaches the viewer")
     ctx.floor("C17.R1", "returns of _handle_eq_event", nret, 2)
+    # the verdict is tested by identity (`is True`): the dispatch chain must hand back the hook's own value,
+    # not a truth value manufactured from it
+    by_identity = any(isinstance(e, ast.Compare) and len(e.ops) == 1 and isinstance(e.ops[0], (ast.Is, ast.IsNot))
+                      and isinstance(e.comparators[0], ast.Constant) and e.comparators[0].value is True
+                      and is_hook(e.left) for x in walk(eq.tree) if isinstance(x, (ast.If, ast.IfExp, ast.While))
+                      for e, _ in atoms(x.test, True) + atoms(x.test, False))
+    if by_identity:
+        start = ctx.repo.fn("AddonManager.handle_eq_event")
+        chain, frontier = [start], [start]
+        for _ in range(3):
+            nxt = []
+            for g in frontier:
+                for c in calls(g.node):
+                    if isinstance(c.func, ast.Attribute) and isinstance(c.func.value, ast.Name) and c.func.value.id in ("cls", "self") \
+                            and g.cls is not None and c.func.attr.startswith("_") and "hook" in c.func.attr:
+                        h = ctx.repo.lookup_method(g.cls, c.func.attr)
+                        if h is not None and h not in chain:
+                            chain.append(h)
+                            nxt.append(h)
+            frontier = nxt
+        ctx.floor("C17.R1", "functions in the eq-event hook dispatch chain", len(chain), 2)
+        for g in chain:
+            bad = [r for r in walk(g.node) if isinstance(r, ast.Return) and r.value is not None and (
+                (isinstance(r.value, ast.Constant) and r.value.value is True) or
+                (isinstance(r.value, ast.Call) and isinstance(r.value.func, ast.Name) and r.value.func.id == "bool") or
+                isinstance(r.value, (ast.Compare, ast.BoolOp, ast.UnaryOp)))]
+            ctx.ob("C17.R1", f"{g.qual} hands back the hook's own return value", not bad, ctx.w(g, bad[0] if bad else g.node),
+                   f"{norm(bad[0]) if bad else ''}: _handle_eq_event swallows an event only when the verdict `is True`; a truth "
+                   f"value manufactured here turns any truthy hook result into a swallow (events vanish)")
     # the wrapper for non-templated events must accept any LLSD body: it runs unguarded inside the filter, so an
     # exception there makes the whole response pass through unprocessed
     fe = ctx.repo.fn("Message.from_eq_event")
@@ -416,22 +446,24 @@ def r1_llsd_binding(ctx):
     upstream package cannot format hippolyzer's UUID / vector types that injected events carry)."""
     repo = ctx.repo
     want = "hippolyzer.lib.base.llsd"
+    from .common import class_methods_reachable
     n = 0
+    seen = {}
     for q in ("MITMProxyEventManager._handle_request", "MITMProxyEventManager._handle_response"):
-        fi = repo.fn(q)
-        heads = {}
-        for c in calls(fi.node):
-            if call_attr(c) in ("format_xml", "parse_xml") and isinstance(c.func, ast.Attribute):
-                head = (ap(c.func.value) or "").split(".")[0]
-                if head and head != "self":
-                    heads.setdefault(head, c)
-        for head, c in sorted(heads.items()):
-            n += 1
-            target = fi.module.imports.get(head)
-            ctx.ob("C17.R1", f"{q}: `{head}` used for parse_xml/format_xml is {want}", target == want, ctx.w(fi, c),
-                   f"`{head}` is bound to {target!r} in {fi.module.rel}: responses carrying injected events with hippolyzer "
-                   f"value types cannot be formatted by another llsd implementation, the rewrite is aborted")
-    ctx.floor("C17.R1", "llsd receivers in the EQ handlers", n, 2)
+        for fi in class_methods_reachable(repo, repo.fn(q), depth=2):
+            for c in calls(fi.node):
+                if call_attr(c) in ("format_xml", "parse_xml") and isinstance(c.func, ast.Attribute):
+                    head = (ap(c.func.value) or "").split(".")[0]
+                    if head and head not in ("self", "cls"):
+                        seen.setdefault((fi.module.rel, head), (fi, c))
+    for (rel, head), (fi, c) in sorted(seen.items()):
+        n += 1
+        target = fi.module.imports.get(head)
+        ctx.ob("C17.R1", f"{rel}: `{head}` used for parse_xml/format_xml by the EQ handlers is {want}", target == want,
+               ctx.w(fi, c),
+               f"`{head}` is bound to {target!r} in {rel}: responses carrying injected events with hippolyzer "
+               f"value types cannot be formatted by another llsd implementation, the rewrite is aborted")
+    ctx.floor("C17.R1", "llsd receivers in the EQ handlers", n, 1)
 
 
 def r2(ctx, m: RespModel):
@@ -715,10 +747,12 @@ def r4(ctx):
     for c in cs:
         a = bind_call(rr, c).get("circuit_addr")
         ok = False
-        if isinstance(a, ast.Name):
+        pa = ap(a) if a is not None else None
+        if pa:      # the address itself, or the announcement record it is a field of, is known to be set
+            prefixes = {".".join(pa.split(".")[:i]) for i in range(1, len(pa.split(".")) + 1)}
             for e, pol in facts(c, eq.tree):
                 t = is_none_test(e)
-                if (t and t[0] == a.id and t[1] != pol) or (isinstance(e, ast.Name) and e.id == a.id and pol):
+                if (t and t[0] in prefixes and t[1] != pol) or (ap(e) in prefixes and isinstance(e, (ast.Name, ast.Attribute)) and pol):
                     ok = True
         ctx.ob("C17.R4", f"_handle_eq_event: {norm(c.func)}(...) only when an address was extracted", ok, eq.w(c),
                f"circuit address argument {norm(a) if a is not None else None} not known to be set: register_region "
@@ -856,6 +890,25 @@ def r4(ctx):
     for q, (g, st) in sorted(adders.items()):
         ctx.ob("C17.R4", f"session.regions grown by {q}", q in REGION_ADDERS, ctx.w(g, st.node),
                "regions are added outside register_region (no duplicate search)")
+    # who removes from / rebinds session.regions
+    base = repo.cls("BaseClientSession", STATE)
+    removers = {}
+    for g, st in fast_writers_of(repo, "regions"):
+        if not g.module.rel.startswith("hippolyzer/lib/"):
+            continue
+        on_session = (st.path == "self.regions" and g.cls is not None and any(k == base for k in repo.mro(g.cls))) \
+            or st.path.endswith("session.regions") or st.path.endswith("session().regions")
+        if not on_session:
+            continue
+        shrink = st.kind in ("delitem", "del", "setitem", "augsetitem") or \
+            (st.kind == "mutcall" and st.method in ("pop", "remove", "clear")) or \
+            (st.kind == "assign" and g.name != "__init__")
+        if shrink:
+            removers.setdefault(g.qual, (g, st))
+    for q, (g, st) in sorted(removers.items()):
+        ctx.ob("C17.R4", f"session.regions shrunk / rebound by {q}", q in REGION_REMOVERS, ctx.w(g, st.node),
+               f"{norm(st.node)}: regions leave the session outside the explicit unregistration "
+               f"({sorted(REGION_REMOVERS)}); a region that was just (re-)announced can be dropped again")
     hooked = fast_callers_of(repo, "handle_region_registered")
     for g, c in hooked:
         if g.qual == "Session.register_region":
